@@ -427,6 +427,7 @@ class Harness:
         quiet = _QuietExcepthook()
         quiet.__enter__()
         A = None
+        before = set(threading.enumerate())
         try:
             if self.mode == "controlled":
                 sched_thread = threading.Thread(target=self._scheduler, name="c16-scheduler", daemon=True)
@@ -440,9 +441,13 @@ class Harness:
                 if sched_thread.is_alive():
                     with self.cond:
                         self._set_abort("watchdog:scheduler-did-not-finish", watchdog=True)
-            # workers the library did not join: wait for them here so that the log is complete
-            for tk in list(self.worker_tks):
-                th = self.thread_objs[tk]
+            # workers the library did not join (including ones that were started but have not reached the
+            # wrapper yet): wait for them here so that the log is complete before it is judged
+            with self.cond:
+                pending = [self.thread_objs[tk] for tk in self.worker_tks]
+            pending += [th for th in threading.enumerate()
+                        if th not in before and th is not sched_thread and th is not threading.current_thread()]
+            for th in pending:
                 th.join(self.total_timeout)
                 if th.is_alive():
                     with self.cond:
